@@ -92,91 +92,36 @@ theorem close_order_irrelevant (up : Bool) (a b : Option Err) (st : Stats) :
 
 /-- a failing `SetDeadline` ends the direction (the deadline failure is the last call) and is logged once -/
 theorem deadline_failure_logged_once (up : Bool) (st : Stats) (s : Script) :
-    (halfPipe up st s).logs ≤ 1 := by
-  unfold halfPipe; simp only; split <;> omega
+    (halfPipe up st s).logs ≤ 1 :=
+  halfPipe_logs_le up st s
 
 /-! ### `Proxy` -/
 
-/-- the dial error, if any, produces a non-empty statistic (true of every error `net.Dial` returns) -/
-def dialSane (i : ProxyIn) : Prop := ∀ e, i.dialErr = some e → ∃ t, e.stat = some t ∧ t ≠ ""
-
-theorem proxy_no_panic (i : ProxyIn) (h : dialSane i) : (proxy i).panicked = false := by
-  unfold proxy
-  cases hd : i.dialErr with
-  | none => simp only; split <;> rfl
-  | some e =>
-    obtain ⟨t, ht, hne⟩ := h e hd
-    simp [ht, hne]
+/-- with a dial error that produces a non-empty statistic (true of every error `net.Dial` returns,
+`dialSane`) `Proxy` never dereferences a nil covert connection -/
+theorem proxy_no_panic (i : ProxyIn) (h : dialSane i) : (proxy i).panicked = false :=
+  proxy_noPanic i h
 
 /-- **`Proxy` returns**: for every pair of scripts both directions release the wait group, so
 `wg.Wait()` does not block. -/
-theorem proxy_returns (i : ProxyIn) (h : dialSane i) : (proxy i).returned = true ∧ (proxy i).wgPending = 0 := by
-  unfold proxy
-  cases hd : i.dialErr with
-  | none =>
-    simp only
-    split
-    · exact ⟨rfl, rfl⟩
-    · simp [halfPipe]
-  | some e =>
-    obtain ⟨t, ht, hne⟩ := h e hd
-    simp [ht, hne]
+theorem proxy_returns (i : ProxyIn) (h : dialSane i) : (proxy i).returned = true ∧ (proxy i).wgPending = 0 :=
+  proxy_returns' i h
 
 /-- **The session gauge is balanced** on every path (dial failure, PROXY-header failure, relay). -/
-theorem gauge_balanced (i : ProxyIn) : (proxy i).gaugeAdds = (proxy i).gaugeRemoves := by
-  unfold proxy
-  cases hd : i.dialErr with
-  | none =>
-    simp only
-    split
-    · rfl
-    · simp [halfPipe]
-  | some e =>
-    simp only
-    cases e.stat with
-    | none => rfl
-    | some t => simp only; split <;> rfl
+theorem gauge_balanced (i : ProxyIn) : (proxy i).gaugeAdds = (proxy i).gaugeRemoves :=
+  proxy_gauge i
 
 /-- when the relay ran, both connections were closed (the client by both directions, the covert by
 both directions and once more by `Proxy` itself) -/
 theorem proxy_closes_both (i : ProxyIn) (h : (proxy i).started = true) :
-    2 ≤ (proxy i).clientCloses ∧ 2 ≤ (proxy i).covertCloses := by
-  unfold proxy at h ⊢
-  cases hd : i.dialErr with
-  | none =>
-    simp only [hd] at h ⊢
-    split
-    · rename_i hh; simp [hh] at h
-    · simp [halfPipe]
-  | some e =>
-    simp only [hd] at h
-    cases hs : e.stat with
-    | none => simp [hs, proxyPanic] at h
-    | some t =>
-      simp only [hs] at h
-      split at h <;> simp [proxyPanic] at h
+    2 ≤ (proxy i).clientCloses ∧ 2 ≤ (proxy i).covertCloses :=
+  proxy_closes i h
 
 /-- **The totals `Proxy` reports are the bytes delivered in each direction.** -/
 theorem proxy_counts_equal_delivered (i : ProxyIn) (u d : Out)
     (hu : (proxy i).upOut = some u) (hdn : (proxy i).downOut = some d) :
-    (proxy i).bytesUp = u.delivered.length ∧ (proxy i).bytesDown = d.delivered.length := by
-  unfold proxy at hu hdn ⊢
-  cases hd : i.dialErr with
-  | none =>
-    simp only [hd] at hu hdn ⊢
-    split
-    · rename_i hh; simp [hh] at hu
-    · rename_i hh
-      simp only [hh, if_false] at hu hdn
-      cases hu; cases hdn
-      exact ⟨stats_equal_delivered true {} i.up, stats_equal_delivered false {} i.down⟩
-  | some e =>
-    simp only [hd] at hu
-    cases hs : e.stat with
-    | none => simp [hs, proxyPanic] at hu
-    | some t =>
-      simp only [hs] at hu
-      split at hu <;> simp [proxyPanic] at hu
+    (proxy i).bytesUp = u.delivered.length ∧ (proxy i).bytesDown = d.delivered.length :=
+  proxy_counts i u d hu hdn
 
 /-! ### non-vacuity: the hypotheses are satisfiable and the interesting case is covered -/
 
